@@ -118,6 +118,8 @@ type Path struct {
 	ghost        map[string]value
 
 	lenient bool
+	curFr   *frame
+	forkLog map[string]int
 	mapOrderUsed int
 	facts   map[int]bool
 	models  []*cachedModel
@@ -251,6 +253,7 @@ func (p *Path) branch(cond *Term) bool {
 	fOK := rf != resUnsat
 	switch {
 	case tOK && fOK:
+		p.logFork("branch")
 		alt := append(append([]decision{}, p.trace...), decision{'b', 2, 0})
 		p.eng.push(p.harness, alt, p.modelFor(ncond))
 		p.trace = append(p.trace, decision{'b', 2, 1})
@@ -267,6 +270,17 @@ func (p *Path) branch(cond *Term) bool {
 	}
 	p.end(stInfeasible, "path condition unsatisfiable")
 	return false
+}
+
+func (p *Path) logFork(kind string) {
+	if p.forkLog == nil {
+		p.forkLog = map[string]int{}
+	}
+	where := "?"
+	if fr := p.curFr; fr != nil && fr.fn != nil {
+		where = fmt.Sprintf("%s %v", p.posStr(fr.curPos()), fr.fn)
+	}
+	p.forkLog[kind+" @ "+where]++
 }
 
 // modelFor returns a cached model under which c holds (nil if none).
@@ -294,6 +308,7 @@ func (p *Path) choose(n int) int {
 		p.trace = append(p.trace, d)
 		return d.Pick
 	}
+	p.logFork(fmt.Sprintf("choose%d", n))
 	for k := n - 1; k >= 1; k-- {
 		alt := append(append([]decision{}, p.trace...), decision{'c', n, k})
 		p.eng.push(p.harness, alt, p.anyModel())
